@@ -193,5 +193,25 @@ PROPS["C17"] = {
     "assumptions": ["element values are mapped to model keys by an order-preserving injection"],
 }
 
+PROPS["C09"] = {
+    "variants": ["v1", "v2"],
+    "lean": ["Gengo.Props.C09"],
+    "level": "proof",
+    "level_text": "Kernel-checked on the transcription of assembleGolangFile/assembleGoFile: header first, package clause, import/var/const "
+                  "blocks in fixed order and only when non-empty, body last; two map schedules differ only by a permutation of import lines; "
+                  "the formatter's import-block canonicalisation (sort by group, path, name; drop duplicates) yields the same block for every "
+                  "permutation and is idempotent. PARTIAL: everything else the formatter does (parsing, layout, idempotence on whole files) is "
+                  "external (go/format, x/tools/imports) and is sampled by the oracle: the emitted file parses, declares the package, keeps "
+                  "the header and the declaration order, is a fixed point of Format, is byte-identical over 17 runs with shuffled "
+                  "contributions, and (v2) imports exactly the contributed set.",
+    "level_note": "Trusted: Lean kernel, the model of Assemble (validated byte for byte, import lines sorted) and of the formatted import "
+                  "block (validated against the real formatter's block), go/format and x/tools/imports beyond that (sampled only). v1's "
+                  "imports.Process runs at the x/tools version pinned by /repo/go.mod's replace directive.",
+    "rule": "files assembled from 1..3 generators' contributions: 0..3 imports each out of 11 spellings (bare, quoted, aliased, std/dotted/"
+            "appengine groups, same path under two names), var/const blocks with header comments, function bodies; every contributed import "
+            "is used by the body (v1's import fixer would otherwise drop it). Non-trivial = at least 2 imports; distinct = distinct line.",
+    "assumptions": ["contributions are valid Go (the property's premise)", "import strings contain no NUL"],
+}
+
 # properties not claimed, with the reason (kept current by hand)
 NOT_APPLICABLE = {}
